@@ -2,6 +2,8 @@ package main
 
 import (
 	"bufio"
+	"io"
+	"os/exec"
 	"crypto/sha256"
 	"encoding/hex"
 	"encoding/json"
@@ -46,6 +48,8 @@ func scnCmd(args []string) int {
 	maxSamples := fs.Int("samples", 5, "mismatch samples kept per component")
 	one := fs.String("one", "", "replay a single scenario json file and print mismatches")
 	every := fs.Int("every", 1, "replay only every n-th scenario (sampling)")
+	workers := fs.Int("workers", 0, "parallel replay workers (0 = number of CPUs)")
+	procs := fs.Int("procs", 0, "fan scenarios out to this many single-threaded child processes (WASM instantiation does not scale across threads of one process)")
 	_ = fs.Parse(args)
 	fl := strings.Split(*forks, ",")
 
@@ -58,8 +62,16 @@ func scnCmd(args []string) int {
 		var rec struct {
 			Fork     string          `json:"fork"`
 			Scenario json.RawMessage `json:"scenario"`
+			Replay   *struct {
+				Fork     string          `json:"fork"`
+				Scenario json.RawMessage `json:"scenario"`
+			} `json:"replay"`
 		}
-		if err := json.Unmarshal(raw, &rec); err != nil || rec.Scenario == nil {
+		err = json.Unmarshal(raw, &rec)
+		if err == nil && rec.Replay != nil {
+			rec.Fork, rec.Scenario = rec.Replay.Fork, rec.Replay.Scenario
+		}
+		if err != nil || rec.Scenario == nil {
 			rec.Scenario = raw
 			rec.Fork = fl[0]
 		}
@@ -79,12 +91,18 @@ func scnCmd(args []string) int {
 		return 0
 	}
 
+	if *procs > 1 {
+		return scnFanOut(*procs, *forks, *out, *maxSamples, *every)
+	}
 	rep := &scnReport{ByComp: map[string]int{}, Samples: map[string][]scnMismatch{}, Forks: fl, OpsSeen: map[string]int{}}
 	var mu sync.Mutex
 	seen := map[[32]byte]bool{}
 	lines := make(chan string, 1024)
 	var wg sync.WaitGroup
 	nw := runtime.NumCPU()
+	if *workers > 0 {
+		nw = *workers
+	}
 	for i := 0; i < nw; i++ {
 		wg.Add(1)
 		go func() {
@@ -185,5 +203,123 @@ func scnCmd(args []string) int {
 		}
 	}
 	_ = hex.EncodeToString
+	return 0
+}
+
+// scnFanOut distributes scenario lines over n child processes and merges their reports.
+func scnFanOut(n int, forks, out string, maxSamples, every int) int {
+	self, err := os.Executable()
+	if err != nil {
+		fmt.Fprintln(os.Stderr, err)
+		return 2
+	}
+	dir, err := os.MkdirTemp("", "vscn.")
+	if err != nil {
+		fmt.Fprintln(os.Stderr, err)
+		return 2
+	}
+	defer os.RemoveAll(dir)
+	type child struct {
+		cmd *exec.Cmd
+		in  io.WriteCloser
+		w   *bufio.Writer
+		rep string
+	}
+	kids := make([]*child, n)
+	for i := range kids {
+		rep := fmt.Sprintf("%s/rep%d.json", dir, i)
+		c := exec.Command(self, "scn", "-forks", forks, "-workers", "1", "-samples", fmt.Sprint(maxSamples), "-out", rep)
+		c.Stderr = os.Stderr
+		in, err := c.StdinPipe()
+		if err != nil {
+			fmt.Fprintln(os.Stderr, err)
+			return 2
+		}
+		if err := c.Start(); err != nil {
+			fmt.Fprintln(os.Stderr, err)
+			return 2
+		}
+		kids[i] = &child{cmd: c, in: in, w: bufio.NewWriterSize(in, 1<<20), rep: rep}
+	}
+	sc := bufio.NewScanner(os.Stdin)
+	sc.Buffer(make([]byte, 1<<20), 64<<20)
+	k := 0
+	for sc.Scan() {
+		t := sc.Text()
+		if strings.HasPrefix(t, `"SCN `) {
+			k++
+			if every > 1 && k%every != 0 {
+				continue
+			}
+			c := kids[k%n]
+			c.w.WriteString(t)
+			c.w.WriteByte('\n')
+		} else {
+			fmt.Println(t)
+		}
+	}
+	total := &scnReport{ByComp: map[string]int{}, Samples: map[string][]scnMismatch{}, Forks: strings.Split(forks, ","), OpsSeen: map[string]int{}}
+	rc := 0
+	for _, c := range kids {
+		c.w.Flush()
+		c.in.Close()
+		if err := c.cmd.Wait(); err != nil {
+			fmt.Fprintln(os.Stderr, "replay child failed:", err)
+			rc = 2
+			continue
+		}
+		raw, err := os.ReadFile(c.rep)
+		if err != nil {
+			rc = 2
+			continue
+		}
+		var r scnReport
+		if err := json.Unmarshal(raw, &r); err != nil {
+			rc = 2
+			continue
+		}
+		total.Scenarios += r.Scenarios
+		total.Runs += r.Runs
+		total.Distinct += r.Distinct
+		total.Nontrivial += r.Nontrivial
+		total.Steps += r.Steps
+		total.Firings += r.Firings
+		total.ParseErrors += r.ParseErrors
+		for c, n := range r.ByComp {
+			total.ByComp[c] += n
+		}
+		for c, ss := range r.Samples {
+			for _, x := range ss {
+				if len(total.Samples[c]) < maxSamples {
+					total.Samples[c] = append(total.Samples[c], x)
+				}
+			}
+		}
+		for o, n := range r.OpsSeen {
+			total.OpsSeen[o] += n
+		}
+		if len(total.Example) < 2 {
+			total.Example = append(total.Example, r.Example...)
+		}
+	}
+	if rc != 0 {
+		return rc
+	}
+	comps := make([]string, 0, len(total.ByComp))
+	for c := range total.ByComp {
+		comps = append(comps, c)
+	}
+	sort.Strings(comps)
+	for _, c := range comps {
+		fmt.Printf("SCN-MISMATCH comp=%s count=%d\n", c, total.ByComp[c])
+	}
+	fmt.Printf("SCN-DONE scenarios=%d runs=%d distinct=%d mismatching-components=%d\n", total.Scenarios, total.Runs, total.Distinct, len(total.ByComp))
+	if out != "" {
+		raw, _ := json.MarshalIndent(total, "", " ")
+		if err := os.WriteFile(out, raw, 0o644); err != nil {
+			fmt.Fprintln(os.Stderr, err)
+			return 2
+		}
+	}
 	return 0
 }
